@@ -82,12 +82,12 @@ Qed.
 Lemma randbelow_good n : (0 < n)%Z -> forall st, good_stream st ->
   (0 <= fst (randbelow n st) < n)%Z /\ good_stream (snd (randbelow n st)).
 Proof.
-  intros Hn st. induction st as [|u r IH]; intros H; simpl.
-  - split; [lia | constructor].
-  - inversion H; subst.
+  intros Hn st. induction st as [|u r IH]; intros H.
+  - cbn [randbelow fst snd]. split; [lia | constructor].
+  - inversion H; subst. cbn [randbelow].
     destruct (Qle_bool _ u).
     + apply IH. assumption.
-    + simpl. split; [apply Z.mod_pos_bound; exact Hn | assumption].
+    + cbn [fst snd]. split; [apply Z.mod_pos_bound; exact Hn | assumption].
 Qed.
 
 (* the event a draw produces has positive probability, and the rest of the stream is still a stream *)
